@@ -46,4 +46,5 @@ RECURSIVE Hists(_)
 Steps == {<<op, x, x>> : op \in Unary, x \in Objs} \cup {<<op, x, y>> : op \in Binary, x \in Objs, y \in Objs}
 Hists(n) == IF n = 0 THEN {<<>>} ELSE Hists(n - 1) \cup {Append(h, s) : h \in {g \in Hists(n - 1) : Len(g) = n - 1}, s \in Steps}
 DumpInit == /\ JsonSerialize(IOEnv.DUMP_FILE, SetToSeq(Hists(MaxLen) \ {<<>>})) /\ Init
+DumpNext == UNCHANGED vars        \* the dump run only needs the initial states: nothing is explored after them
 =============================================================================
